@@ -182,6 +182,12 @@ def record_baseline(results):
             continue
         good = [o['id'] for o in res['obligations'] if o['id'] not in m.fail]
         bad = [o['id'] for o in res['obligations'] if o['id'] in m.fail]
+        # clauses of functions whose only check is the bounded harness: recorded (as bounded, never as proved) when the
+        # harness ran clean on the pinned tree, so that a later counterexample is a regression and not a harness mistake
+        for iid, bd in sorted((res.get('bounded_only') or {}).items()):
+            for lbl in bd['labels']:
+                oid = '%s/%s/%s' % (u, iid, lbl)
+                (good if bd['status'] == 'clean' or (bd['status'] == 'witness' and lbl not in bd['witnesses']) else bad).append(oid)
         base[u] = sorted(good)
         print('unit %s: %d obligations recorded in baseline, %d failing (not recorded): %s' % (u, len(good), len(bad), bad))
     json.dump(base, open(BASELINE, 'w'), indent=1, sort_keys=True)
@@ -312,6 +318,29 @@ def report_property(prop, a, reg, results, extra, seed, t0):
                                  % (u, res['canaries_not_failing']))
             if res['vac'].hard_errors:
                 undecided.append('unit %s: vacuity variant did not compile: %s' % (u, res['vac'].hard_errors[0][:800]))
+    for u in units_for(prop, reg):
+        res = results.get(u) or {}
+        for iid, bd in sorted((res.get('bounded_only') or {}).items()):
+            if bd['props'] and prop not in bd['props']:
+                continue
+            role = 'the only check of a function outside the verifier\'s subset (its contract is assumed in the deductive part)'
+            bounded_rows.append(dict(bd, unit=u, role=role))
+            if bd['status'] == 'error':
+                undecided.append('unit %s: bounded check of %s could not run: %s' % (u, iid, bd['detail'][:300]))
+            elif bd['status'] == 'witness':
+                for lbl, wit in sorted(bd['witnesses'].items()):
+                    oid = '%s/%s/%s' % (u, iid, lbl)
+                    po = dict(id=oid, item=iid, kind='ensures (assumed in the deductive part, checked by the bounded harness on the real text)',
+                              props=sorted(bd['props']), text='clause %s of the contract of %s (contracts/%s.py)' % (lbl, iid, u))
+                    obligations.append(po)
+                    kf = match_finding(findings, oid)
+                    if kf is not None:
+                        known.append((po, kf))
+                    elif oid in base.get(u, []) or lbl == 'implicit':
+                        violations.append((u, po, 'bounded counterexample', dict(bd, witness=wit)))
+                    else:
+                        undecided.append('bounded check of %s reports a counterexample for %s, a clause that never held on the pinned tree '
+                                         '(harness or contract copy wrong?): %s' % (iid, lbl, wit[:200]))
     if extra.get('stability'):
         for u in units_for(prop, reg):
             for row in extra['stability'].get(u, []):
@@ -385,8 +414,12 @@ def write_bounded_replay(path, prop, unit, o, bd):
     with open(path, 'w') as f:
         f.write('property: %s\nobligation: %s\nkind: %s\n' % (prop, o['id'], o['kind']))
         f.write('contract clause:\n    %s\n' % o['text'].replace('\n', '\n    '))
-        f.write('status: the function can no longer be brought into the verifier (its new text uses a construct Verus rejects or a\n'
-                '        rewrite / proof anchor is lost), so the clause was checked by the bounded stand-in instead of deductively\n')
+        if 'assumed in the deductive part' in o.get('kind', ''):
+            f.write('status: the function is outside the verifier\'s subset (iterator pipeline over std); its contract is assumed in the\n'
+                    '        deductive part and the bounded harness is the check of the real text; the clause held on the pinned tree\n')
+        else:
+            f.write('status: the function can no longer be brought into the verifier (its new text uses a construct Verus rejects or a\n'
+                    '        rewrite / proof anchor is lost), so the clause was checked by the bounded stand-in instead of deductively\n')
         f.write('bounded stand-in: %s; %d cases; bound: %s\n' % (bd['harness'], bd['checked'], bd['bound']))
         f.write('witness (an input of the REAL function text, extracted from the tree under check, that breaks the clause):\n    %s\n' % bd['witness'])
         f.write('replay: %s  (the harness with the real function text pasted in; %s)\n' % (src_copy, bd.get('cmd', '')))
